@@ -67,6 +67,13 @@ fn expand(p: &Option<PortSpec>) -> Vec<u64> {
     }
 }
 
+fn first_difference(a: &str, b: &str) -> (String, String) {
+    let i = a.bytes().zip(b.bytes()).position(|(x, y)| x != y).unwrap_or(a.len().min(b.len()));
+    let from = i.saturating_sub(60);
+    let cut = |s: &str| s.chars().skip(from).take(160).collect::<String>();
+    (cut(a), cut(b))
+}
+
 impl<'a> World<'a> {
     fn viol(&mut self, rule: &str, sig: &[(&str, String)], detail: String, keep_going: bool) {
         let d = self.san(&detail);
@@ -107,6 +114,22 @@ impl<'a> World<'a> {
                             "registry.reload_differs",
                             &[("op", op.clone())],
                             format!("saved registry and reloaded registry differ: saved={a} loaded={b}"),
+                            false,
+                        );
+                        return;
+                    }
+                }
+                // the same comparison on the values themselves (a Serialize impl that loses information makes the
+                // two JSON forms above agree)
+                if let Some(saved) = &out.saved_debug {
+                    let loaded = format!("{:?}", reg.nodes);
+                    if loaded != *saved {
+                        let (a, b) = first_difference(saved, &loaded);
+                        let (a, b) = (self.san(&a), self.san(&b));
+                        self.viol(
+                            "registry.reload_differs",
+                            &[("op", op.clone()), ("how", "in_memory_value".into())],
+                            format!("the registry that was saved and the registry that loads back differ: saved ...{a}... loaded ...{b}..."),
                             false,
                         );
                         return;
@@ -266,6 +289,20 @@ impl<'a> World<'a> {
                     }
                     if self.os.lock().installed.contains_key(name) {
                         self.rep.probe("removed_but_definition_still_installed");
+                    }
+                }
+                (Step::Remove { .. }, Err(_)) => {
+                    // a removal that refuses (or fails) for a service whose process is alive must not write the
+                    // service off: the record may not change from Running to stopped / no pid while it lives
+                    let was_running = pre_e.get(*idx).map(|p| p.status == "Running").unwrap_or(false);
+                    if was_running && e.status != "Running" && e.status != "Removed" && live.is_some() && pid_lookup_failed != "yes" {
+                        self.viol(
+                            "remove.failed_but_recorded_stopped_while_alive",
+                            &[("failing_call", failing.clone())],
+                            format!("removal of {name} failed, yet the registry now records {} (pid {:?}) while its process (pid {live:?}) is alive", e.status, e.pid),
+                            false,
+                        );
+                        return;
                     }
                 }
                 (Step::Upgrade { .. }, Ok(txt)) => {
